@@ -3,22 +3,23 @@ PROPS = {}
 
 PROPS["C03"] = {
     "level": "exploration",
-    "rule": "one evaluation = one generated record set (0..12 distinct packages of one of the 12 formats) rendered under two independently drawn layouts, each rendering extracted and compared with the generator's expected (name, version) multiset, Locations == [path], no error, and both renderings agreeing; non-trivial = at least 2 records and at least one of the two layouts differs from the canonical layout of the format in at least one dimension the format has (record order, special-case position, CRLF, missing final newline, extra blank lines, comments, more/fewer unrelated fields, continuation lines, indentation, key order, section order, sub-format); distinct by the case JSON. The fixture leg adds one evaluation per hand-transcribed repository fixture (renderer validation).",
+    "rule": "one evaluation = one generated record set (0..12 distinct packages of one of the 12 formats) rendered under two independently drawn layouts, each rendering extracted and compared with the generator's expected (name, version) multiset, Locations == [path], no error, and both renderings agreeing; for go.mod a record is a requirement, the go directive or a replace directive; non-trivial = at least 2 records and at least one of the two layouts differs from the canonical layout of the format in at least one dimension the format has (record order, special-case position, CRLF, missing final newline, extra blank lines, comments, more/fewer unrelated fields, continuation lines, indentation, key order, section order, sub-format); distinct by the case JSON. The fixture leg adds one evaluation per hand-transcribed repository fixture (renderer validation).",
     "assumptions": [
-        "'well-formed' is what the harness renderers emit; every renderer is validated on each run against 25 hand-transcribed repository fixtures (TestC03_fixtures): extractor(fixture) == extractor(render(transcription)) == expected(transcription)",
+        "'well-formed' is what the harness renderers emit; every renderer is validated on each run against 29 hand-transcribed repository fixtures (TestC03_fixtures): extractor(fixture) == extractor(render(transcription)) == expected(transcription)",
         "line endings: CRLF is generated for requirements.txt, go.mod, Cargo.lock, package-lock.json, composer.lock, Gemfile.lock, gradle.lockfile, poetry.lock, Pipfile.lock, packages.lock.json (text/JSON/TOML files that are edited, checked out with autocrlf, and whose own tools read them line-ending agnostically); NOT for dpkg status and apk installed, which are only ever written by the package manager on Linux with LF",
         "comments are generated only where the format has a comment syntax (requirements.txt '#', go.mod '//', TOML '#', gradle.lockfile '#'); blank lines only where the format's own reader ignores them (between dpkg/apk stanzas, between Gemfile.lock sections, between lines of the line-oriented formats, between TOML tables)",
         "dpkg: not installed = third Status word other than 'installed' (as dpkg.go documents); the states triggers-awaited / triggers-pending are not generated (dpkg treats them as installed, the extractor documents only 'installed'; the property text does not settle them); a missing Status field is only generated for the distroless status.d layout with a single stanza",
         "requirements.txt: pinned requirements with the specifiers ==, ===, >=, <=, ~= (the version the extractor documents to report), optional extras, markers, --hash options, backslash continuations; no -r includes, URLs, environment variables or unsupported specifiers (<, !=, ranges, wildcards)",
-        "go.mod: the documented extra package 'stdlib' (go directive, overridden by toolchain) is expected; replace directives rename the replaced requirement as the extractor documents; go < 1.17 files are generated without a go.sum next to them",
-        "package-lock.json: the same (name, version) installed at several paths is one package (npm's own dedup, documented by the extractor); git/file/link dependencies are not generated",
+        "go.mod: the documented extra package 'stdlib' (go directive, overridden by toolchain) is expected; replace directives rename the replaced requirement as the extractor documents, resolved the way the go command does (go.dev/ref/mod#go-mod-file-replace): the directive naming the exact required version wins over a version-less one for the same path whatever their order, a replacement is final (directives are looked up by the module as required, not by a replacement's path), directives for modules or versions that are not required have no effect, two requirements resolved to the same module version are one package. Generated: a path required at several versions; per module an exact + a version-less directive in both orders, several exact directives, version-less directives covering several required versions, directives for unrequired modules/versions, replacement by a directory, by another version of the same path, by a module that is itself required; block, one-line and mixed forms; left-hand sides are never repeated (the go command rejects conflicting directives). go < 1.17 files are generated without a go.sum next to them",
+        "package-lock.json: the same (name, version) installed at several paths is one package (npm's own dedup, documented by the extractor). v2/v3 'packages' keys are node_modules locations (scoped, nested, nested under scoped parents) and plain project directories (workspace members / file: targets, below or beside the project root, with children installed under <dir>/node_modules); per npm's name-from-folder rule the entry carries 'name' only when it differs from the last path segment preceded by its parent folder when that starts with '@' (an unneeded 'name' is sometimes written too); a {resolved: <dir>, link: true} entry is the symbolic link to a directory entry, not a package of its own (npm docs: 'the link target will also be included in the lockfile'). lockfileVersion 1 has no 'packages': the same records are rendered as ordinary dependencies there. Git dependencies and versionless entries are not generated",
+        "the expectation for package-lock.json and go.mod is cross-checked on every evaluation by an independent reader of the rendered bytes written from the formats' documentation (internal/layouts/refread.go); a disagreement is reported as a harness error",
         "packages.lock.json: the same (name, version) is not repeated across target frameworks and Project-type references are not generated (the property does not say whether per-framework repeats are one package or several)",
         "names are kept distinct under case-folding and [-_.] folding except where the ecosystem legitimately has one name at several versions (Cargo.lock, package-lock.json, gradle.lockfile, packages.lock.json across frameworks)",
     ],
     "engine": "rapid",
     "technique": "property-based testing with layout-aware renderers (model = the generator's record set), metamorphic re-rendering",
     "level_text": "Sampled exploration: 1 500 (quick) / 16 x 15 000 (thorough) generated (record set, layout, layout) triples per format, i.e. 18 000 / 2.9 million cases; the oracle is exact (the generator knows what it wrote). Says nothing about layouts the renderers cannot produce.",
-    "level_note": "Trusted: the 12 renderers (validated against repository fixtures on every run) and the per-format expectation function (installed filter, go.mod stdlib/replace, npm dedup).",
+    "level_note": "Trusted: the 12 renderers (validated against repository fixtures on every run) and the per-format expectation function (installed filter, go.mod stdlib/replace resolution, npm dedup and name-from-folder; for go.mod and package-lock.json cross-checked against a second, byte-level reference reader).",
     "legs": [{"fam": "extractfam", "run": "^(TestC03|TestC03_fixtures)$"}],
     "timeout": {"quick": 600, "thorough": 1800},
 }
